@@ -134,7 +134,7 @@ class Tr:
                 neg = 'true' if op == 'not in' else 'false'
                 if isinstance(b, ast.Tuple):
                     return f'(EIn {neg} {self.expr(a)} {lst([self.expr(x) for x in b.items])})'
-                if isinstance(b, (ast.Select, ast.Union)):
+                if isinstance(b, (ast.Select, ast.Union, ast.Except, ast.Intersect)):
                     return f'(EInQ {neg} {self.expr(a)} {self.query(b)})'
                 if isinstance(b, ast.Parameter):
                     return f'(EInP {neg} {self.expr(a)} {self.res_k(b)})'
@@ -210,10 +210,13 @@ class Tr:
 
     def query(self, q, from_override=None, strip_limit=False):
         from mindsdb_sql.parser import ast
-        if isinstance(q, ast.Union):
-            if type(q).__name__ != 'Union':
-                raise Unsupported(type(q).__name__)
-            return f'(QUnion {"false" if q.unique else "true"} {self.query(q.left)} {self.query(q.right)})'
+        if isinstance(q, (ast.Union, ast.Except, ast.Intersect)):
+            allf = "false" if q.unique else "true"
+            if isinstance(q, ast.Except):
+                return f'(QSetOp SExcept {allf} {self.query(q.left)} {self.query(q.right)})'
+            if isinstance(q, ast.Intersect):
+                return f'(QSetOp SIntersect {allf} {self.query(q.left)} {self.query(q.right)})'
+            return f'(QUnion {allf} {self.query(q.left)} {self.query(q.right)})'
         if not isinstance(q, ast.Select):
             raise Unsupported(f'query {type(q).__name__}')
         if getattr(q, 'mode', None) or getattr(q, 'using', None):
@@ -265,9 +268,13 @@ class Tr:
             on = opt(self.expr(j.condition) if j.condition is not None else None)
             return f'(PJoin {kind} {k(s.left)} {k(s.right)} {on})'
         if isinstance(s, S.UnionStep):
-            if getattr(s, 'operation', 'union') != 'union':
-                raise Unsupported('set operation')
-            return f'(PUnion {k(s.left)} {k(s.right)} {"false" if s.unique else "true"})'
+            op = getattr(s, 'operation', 'union')
+            allf = "false" if s.unique else "true"
+            if op == 'union':
+                return f'(PUnion {k(s.left)} {k(s.right)} {allf})'
+            if op in ('except', 'intersect'):
+                return f'(PSetOp {"SExcept" if op == "except" else "SIntersect"} {k(s.left)} {k(s.right)} {allf})'
+            raise Unsupported(f'set operation {op}')
         if isinstance(s, S.ProjectStep):
             return f'(PProject {k(s.dataframe)} {lst([self.target(t) for t in s.columns])})'
         if isinstance(s, S.LimitOffsetStep):
@@ -286,14 +293,15 @@ class Tr:
 
 
 # ---------------------------------------------------------------------- databases
-def gen_db(rng, tables, cols=('a', 'b', 'c'), maxrows=4, strings=False):
-    """tables: list of tuples of name parts.  -> python structure {parts: (cols, rows)}"""
+def gen_db(rng, tables, cols=('a', 'b', 'c'), maxrows=4, strings=False, few_values=False):
+    """tables: list of tuples of name parts.  -> python structure {parts: (cols, rows)}
+    few_values: values from {0, 1, NULL} only and more rows, so that the same row occurs several times (bag semantics)"""
     db = {}
     for t in tables:
-        n = rng.choice([0, 1, 2, 3, maxrows])
+        n = rng.choice([0, 1, 2, 3, maxrows]) if not few_values else rng.choice([1, 2, 3, 4, 5])
         rows = []
         for _ in range(n):
-            rows.append([None if rng.random() < 0.15 else rng.randint(0, 3) for _ in cols])
+            rows.append([None if rng.random() < 0.15 else rng.randint(0, 1 if few_values else 3) for _ in cols])
         if rows and rng.random() < 0.3:
             rows.append(list(rows[0]))
         db[tuple(t)] = (list(cols), rows)
